@@ -545,7 +545,7 @@ Definition io_step (s : shared) (i : iost) (e : env) : option (shared * iost * l
   | IoHc h eof =>
       match h with
       | HcAcq => if free (olock s) then Some (set_olock s (Some TIo), goto (IoHc HcBufs eof), [LAcq Ob]) else None
-      | HcBufs => Some (set_discarded (set_obs s (map (fun _ => []) (obs s))) (discarded s ++ skipn (infl s) (concat (obs s))),
+      | HcBufs => Some (set_discarded (set_obs s (map (fun _ => []) (obs s))) (skipn (infl s) (concat (obs s)) ++ discarded s),
                         goto (IoHc HcTot eof), [LR AOutbufs])
       | HcTot => Some (set_total s 0%Z, goto (IoHc HcConn eof), [LW ATotal])
       | HcConn => Some (set_connected s false, goto (IoHc HcNotify eof), [LW AConnected])
